@@ -79,6 +79,16 @@ CHECKS = [
   'level': 'For all mu in the stated range: the CR3BP field vanishes at x_k(gamma) iff the code\'s quintic vanishes; the root function is strictly monotone on each region (uniqueness, so ratio and position agree); the primary or fallback bracket always changes sign (also for the 19 catalogue ratios); '
            'L4/L5 are exact equilibria; the local linear matrix has the characteristic polynomial of the CR3BP Jacobian; C^T J C = J and H2 o C is the diagonal normal form modulo the eigen-relations.',
   'note': 'Brent/LAPACK behind contracts (convergence and mode selection outside); bracket obligation over mu in [1e-9, 1/2] as named by the property; triangular linear modes not encoded'},
+ {'id': 'C05',
+  'technique': 'path-exhaustive symbolic execution (z3) of the Newton loop, the Armijo search and the plain step with residual map, norm, Jacobian and linear solve uninterpreted; implicit-function Jacobian identity against the real CR3BP field',
+  'level': 'For all residual maps, norms, start points, tolerances and caps within the bounds: every normal return of the Newton backend reports residual_norm = N(R(x_corrected)) < tol and every other path raises ConvergenceError; Armijo never increases the residual norm and '
+           'respects the step cap (else BackendError); the halo shooting Jacobian is the derivative of the crossing residual with the real accelerations; period = 2 * half period and the corrected state is written back after a cache reset.',
+  'note': 'max_attempts <= 2 (3-4 thorough), 5 backtracking steps, dimension 2; LAPACK by contract; "the corrected orbit closes after one period" needs the flow map and is outside this family'},
+ {'id': 'C12',
+  'technique': 'symbolic execution of the seed construction, the service constructor/STM/filters (stubs recording arguments) and of the eigen-classification on symbolic spectra; normal-form identities and z3 path obligations',
+  'level': 'For all transported matrices, eigenvectors, orbit points and displacements: seed - orbit point = displacement * direction * Phi(frac) v / |(Phi v)_pos| (snapping only below 1e-15); forward = -stable and every seed is propagated with it (all six components reversed); '
+           'the STM feeding eigenvectors and transport is the forward one over one period; only eigenvectors with |lambda| < 1-delta / > 1+delta are offered as stable/unstable; retained trajectories passed the Jacobi filter, whose quantity is a first integral.',
+  'note': 'propagation/STM/eigen-solver are stubs (contracts); 3x3 real spectra for the classification; numerical accuracy of PHI(frac) v outside'},
 ]
 _BUILT = {c['id'] for c in CHECKS}
 NOT_APPLICABLE = [
